@@ -176,8 +176,23 @@ func (r *Run) LibIssue(s *MsgSpec, sp Spelling, typedAlg bool, ent *Entropy, wra
 		}
 		return nil
 	}
+	// the application leaves the algorithm to the library
+	leave := func(h *cose.Headers, hasAlg bool) {
+		if !r.LeaveAlgToLibrary || len(s.External) > 0 || !hasAlg || h.Protected == nil {
+			return
+		}
+		for k := range h.Protected {
+			if v, ok := asInt64(k); ok && v == refcose.LAlg {
+				delete(h.Protected, k)
+				r.Fired("app.alg-left-to-library")
+			}
+		}
+	}
 	if s.Kind == refcose.KSignTagged {
 		is.MS = s.LibSign(sp, typedAlg)
+		for i, sg := range s.Signers {
+			leave(&is.MS.Signatures[i].Headers, sg.Layer.Prot.lookup(refcose.LAlg) != nil && sg.Layer.Prot.lookup(refcose.LAlg).IsInt())
+		}
 		signers := make([]cose.Signer, len(s.Signers))
 		for i, sg := range s.Signers {
 			signers[i] = mk(i, sg.Key)
@@ -186,6 +201,7 @@ func (r *Run) LibIssue(s *MsgSpec, sp Spelling, typedAlg bool, ent *Entropy, wra
 		r.Lib(func() { err = is.MS.Sign(ent, s.External, signers...) })
 	} else {
 		is.M1 = s.LibSign1(sp, typedAlg)
+		leave(&is.M1.Headers, s.Layer.Prot.lookup(refcose.LAlg) != nil && s.Layer.Prot.lookup(refcose.LAlg).IsInt())
 		is.M1.Signature = recycled()
 		signer := mk(0, s.Key)
 		r.Lib(func() { err = is.M1.Sign(ent, s.External, signer) })
